@@ -1,5 +1,5 @@
-(* Proof/ChanWake.v -- C05: the combined invariant holds in every reachable state of the
-   runs in which no worker-side send_continue has raised, and in a quiescent state it leaves no room for undelivered output, an
+(* Proof/ChanWake.v -- C05: the combined invariant holds in every reachable state, and in a
+   quiescent state it leaves no room for undelivered output, an
    unserviced request, a producer parked with space, or an unfinished close. *)
 From Coq Require Import List ZArith Bool Arith Lia.
 From WV Require Import Lib.Conc Model.ChanWake Proof.ChanWakeInv Proof.ChanWakeBase Proof.ChanWakeL1 Proof.ChanWakeL1b
@@ -19,38 +19,21 @@ Proof.
   split; [apply inv4_init|]. split; [apply inv5_init|]. split; [apply g6_init|apply inv1b_init].
 Qed.
 
-(* the ghost flag is never reset *)
-Lemma taint_mono : forall c s ch s' l, step c s ch = Some (s', l) -> taint s = true -> taint s' = true.
-Proof.
-  intros c s ch s' l H Ht. unfold step in H. destruct ch.
-  1-4: unfold step_io in H; step_cases H; unfold after_read, turn_start, hc_return, goio, add_task;
-       repeat match goal with |- context [if ?b then _ else _] => destruct b end;
-       repeat match goal with |- context [match ?b with [] => _ | _ :: _ => _ end] => destruct b end;
-       simpl; auto.
-  1-3: unfold step_w in H; destruct (getw s i); [|discriminate]; step_cases H; unfold setw, add_task;
-       repeat match goal with |- context [if ?b then _ else _] => destruct b end;
-       repeat match goal with |- context [match ?b with [] => _ | _ :: _ => _ end] => destruct b end;
-       simpl; auto.
-  - destruct (gone s); [discriminate|]. inversion H; subst. simpl. auto.
-  - destruct (gone s); [discriminate|]. inversion H; subst. simpl. auto.
-Qed.
-
 Lemma inv_step : forall c s ch s' l,
-  0 <= hw c -> Inv c s -> step c s ch = Some (s', l) -> taint s' = false -> Inv c s'.
+  0 <= hw c -> Inv c s -> step c s ch = Some (s', l) -> Inv c s'.
 Proof.
-  intros c s ch s' l Hhw (H1 & H2 & H3 & H4 & H5 & H6 & H7) H Ht. unfold Inv.
+  intros c s ch s' l Hhw (H1 & H2 & H3 & H4 & H5 & H6 & H7) H. unfold Inv.
   split; [eapply inv1_step; eauto|]. split; [eapply inv2_step; eauto|]. split; [eapply inv3_step; eauto|].
   split; [eapply inv4_step; eauto|]. split; [eapply inv5_step; eauto|]. split; [eapply g6_step; eauto|eapply inv1b_step; eauto].
 Qed.
 
 Theorem inv_reachable : forall c nw sched,
-  0 <= hw c -> (0 < nw)%nat -> taint (runc c nw sched) = false -> Inv c (runc c nw sched).
+  0 <= hw c -> (0 < nw)%nat -> Inv c (runc c nw sched).
 Proof.
   intros c nw sched Hhw Hnw. unfold runc.
-  apply (invariant_rule _ _ _ (step c) (fun s => taint s = false -> Inv c s)).
-  - intros _. apply inv_init; auto.
-  - intros s ch s' l IH H Ht. eapply inv_step; eauto. apply IH.
-    destruct (taint s) eqn:E; auto. rewrite (taint_mono _ _ _ _ _ H E) in Ht. discriminate.
+  apply (invariant_rule _ _ _ (step c) (Inv c)).
+  - apply inv_init; auto.
+  - intros s ch s' l IH H. eapply inv_step; eauto.
 Qed.
 
 Lemma forallb_nth : forall A (f : A -> bool) l j p,
@@ -249,52 +232,44 @@ Proof.
 Qed.
 
 (* ---- the theorems of C05 ------------------------------------------------------------- *)
-Lemma kf_taint : forall s, in_kf_class s = false -> taint s = false.
-Proof. intros s H. exact H. Qed.
-
-Theorem c05_partial : forall c nw sched,
+Theorem c05_full : forall c nw sched,
   0 <= hw c -> (0 < nw)%nat ->
   quiescent_parked (runc c nw sched) = true ->
-  in_kf_class (runc c nw sched) = false ->
   c05_ok (runc c nw sched) = true.
 Proof.
-  intros c nw sched Hhw Hnw Hq Hkf. apply (quiescent_ok c); auto.
-  apply inv_reachable; auto.
+  intros c nw sched Hhw Hnw Hq. apply (quiescent_ok c); auto. apply inv_reachable; auto.
 Qed.
 
 (* stated for the widest notion of quiescence: no thread of the server is enabled *)
-Theorem c05_partial_stuck : forall c nw sched,
+Theorem c05_stuck : forall c nw sched,
   0 <= hw c -> (0 < nw)%nat ->
   quiescent (runc c nw sched) = true ->
-  in_kf_class (runc c nw sched) = false ->
   quiescent_parked (runc c nw sched) = true /\ c05_ok (runc c nw sched) = true.
 Proof.
-  intros c nw sched Hhw Hnw Hq Hkf.
+  intros c nw sched Hhw Hnw Hq.
   assert (HI : Inv c (runc c nw sched)) by (apply inv_reachable; auto).
   pose proof (quiescent_is_parked c _ HI Hq) as Hp. split; auto. apply (quiescent_ok c); auto.
 Qed.
 
-Theorem c05_app_partial : forall c nw sched,
+Theorem c05_app : forall c nw sched,
   0 <= hw c -> (0 < nw)%nat ->
   quiescent_app (runc c nw sched) = true ->
-  in_kf_class (runc c nw sched) = false ->
   app_ok c (runc c nw sched) = true.
 Proof.
-  intros c nw sched Hhw Hnw Hq Hkf. apply (quiescent_app_ok c); auto.
-  apply inv_reachable; auto.
+  intros c nw sched Hhw Hnw Hq. apply (quiescent_app_ok c); auto. apply inv_reachable; auto.
 Qed.
 
 (* the same, conjunct by conjunct, in words of the model *)
-Theorem c05_partial_unfolded : forall c nw sched s,
+Theorem c05_unfolded : forall c nw sched s,
   0 <= hw c -> (0 < nw)%nat -> s = runc c nw sched ->
-  quiescent_parked s = true -> taint s = false ->
+  quiescent_parked s = true ->
   (closed s = false -> total s = 0 /\ pend s = 0) /\
   (closed s = false -> nreq s = 0%nat /\ queue s = 0%nat /\ rx s = []) /\
   (forall j p, nth_error (ws s) j = Some p -> parked_o p = false) /\
   (wc s = true \/ cwf s = true -> closed s = true).
 Proof.
-  intros c nw sched s Hhw Hnw -> Hq Ht.
-  pose proof (c05_partial c nw sched Hhw Hnw Hq Ht) as H. unfold c05_ok in H.
+  intros c nw sched s Hhw Hnw -> Hq.
+  pose proof (c05_full c nw sched Hhw Hnw Hq) as H. unfold c05_ok in H.
   repeat (apply andb_true_iff in H; destruct H as [H ?]).
   repeat split.
   - unfold no_pending_output in H. rewrite H3 in H. simpl in H. apply andb_true_iff in H. destruct H. apply Z.eqb_eq; auto.
